@@ -18,6 +18,8 @@ MANIFEST = {
             "map object under test.",
     "technique": "bounded-exhaustive enumeration of inputs x configurations and of operation histories with the walk invariant on every result",
 }
+MANIFEST["text"] += " " + (
+    'Added after the seeding waves: routes that go around a block twice (the same directed edge used twice) on the cycle graphs.')
 BUDGET = {"quick": 420, "thorough": 3000}
 RULE = ("states = path states checked for existence, transitions = consecutive pairs checked against the move relation, traces "
         "validated = nodes-only views computed and checked; non-trivial = the path changes state at least once; outcomes = (index, path shape).")
